@@ -64,13 +64,18 @@ def candidate_wids(seed: int, prop: str):
     # extension family genx (several start events, loops inside break
     # branches): C05 names such jobs in its quantifier; C07 explores it too
     if prop in ("C05", "C07"):
+        # one genx definition after every three gen definitions
         gx = list(range(grid.N_GENX))
         r.shuffle(gx)
-        gens = [("genx", i) for i in gx[: len(gx) // 3]] + [
-            ("gen", i) for i in gens]
-        rest = [("genx", i) for i in gx[len(gx) // 3:]]
-        r.shuffle(gens)
-        gens += rest
+        mixed = []
+        gi = iter(gx)
+        for n, i in enumerate(gens):
+            mixed.append(("gen", i))
+            if n % 3 == 2:
+                j = next(gi, None)
+                if j is not None:
+                    mixed.append(("genx", j))
+        gens = mixed
     else:
         gens = [("gen", i) for i in gens]
     for n, (fam, i) in enumerate(gens):
